@@ -61,7 +61,7 @@ pub fn source_objects_shaped(resources: usize, extras: usize, shape: usize) -> V
     };
     // third page: uses the shared font and image again, plus its own ext-gstate name
     o.push((39, Val::dict(vec![("Type", Val::name("Page")), ("Parent", Val::r(2)), ("Contents", Val::r(51)), ("MediaBox", Val::ints(&[0, 0, 300, 400])), ("Rotate", Val::Int(180))])));
-    o.push((51, Val::stream(vec![], b"BT /F1 9 Tf (third) Tj ET q 2 0 0 2 0 0 cm /Im1 Do Q /GS1 gs /Fm1 Do /ImLzw Do\n".to_vec())));
+    o.push((51, Val::stream(vec![], b"BT /F1 9 Tf (third) Tj ET q 2 0 0 2 0 0 cm /Im1 Do Q /GS1 gs /Fm1 Do /ImLzw Do /GS3 gs\n".to_vec())));
     // an image whose filter parameters matter although there is no predictor: LZW with /EarlyChange 0, enough data for
     // the code width to change (a copy that loses the parameter decodes to something else or not at all)
     {
@@ -79,6 +79,16 @@ pub fn source_objects_shaped(resources: usize, extras: usize, shape: usize) -> V
                 crate::pdfgen::filters::lzw_encode(&samples, false, 0),
             ),
         ));
+        // a graphics state whose parameters hold references: a soft mask with its transparency group, a font
+        let gs_val = o.iter().find(|(n, _)| *n == 5).unwrap().1.get("ExtGState").unwrap().clone();
+        let gs3 = Val::dict(vec![("Type", Val::name("ExtGState")), ("SMask", Val::dict(vec![("Type", Val::name("Mask")), ("S", Val::name("Luminosity")), ("G", Val::r(43))])), ("Font", Val::Array(vec![Val::r(9), Val::Int(12)])), ("CA", Val::real("0.5"))]);
+        match gs_val {
+            Val::Ref(nr, _) => o.iter_mut().find(|(n, _)| *n == nr).unwrap().1.set("GS3", gs3),
+            mut g => {
+                g.set("GS3", gs3);
+                o.iter_mut().find(|(n, _)| *n == 5).unwrap().1.set("ExtGState", g);
+            }
+        }
         // (with the shapes that store the category dictionaries as objects of their own, /XObject is a reference)
         let xo_val = o.iter().find(|(n, _)| *n == 5).unwrap().1.get("XObject").unwrap().clone();
         match xo_val {
